@@ -12,7 +12,7 @@ From mathcomp Require Import all_ssreflect all_fingroup all_algebra.
 From mathcomp Require Import mxtens.
 Require Import C05.ModelBase C05.ModelCG C05.Model.
 Require Import C05.ProofsAlg C05.ProofsLog C05.ProofsBridge C05.ProofsLRRAD C05.ProofsKron C05.ProofsConv.
-Require Import C05.ModelLayout C05.ProofsLayout C05.ProofsBlockQuad.
+Require Import C05.ModelLayout C05.ProofsLayout C05.ProofsBlockQuad C05.ProofsCache.
 Set Implicit Arguments. Unset Strict Implicit. Unset Printing Implicit Defensive.
 Import GRing.Theory Num.Theory.
 Local Open Scope ring_scope.
@@ -325,8 +325,41 @@ Theorem C05_cholesky_route : forall (F : Type) (A : Arith F) (eigh : nat -> mat 
     (probes : cols F),
   (~~ s_log_prob S || (n <= s_max_cholesky_size S)%N) ->
   generic_iql A eigh S bs n gs R logdet reduce probes =
-  ROk (chol_iql A bs [seq (false, n, cholesky A n (g_M g)) | g <- gs] R logdet reduce).
+  ROk (chol_iql A bs [seq (false, n, shortcut_root A n g) | g <- gs] R logdet reduce).
 Proof. exact cholesky_route. Qed.
+
+(* The cached-triangular-root shortcut (inv_quad_logdet lines 1700-1708): on the Cholesky route the factor handed to
+   CholLinearOperator is the cached root_decomposition entry when the cache holds a (lower) TriangularLinearOperator root -
+   transplanted by cat_rows / add_low_rank or left by an earlier root_decomposition() - and self.cholesky() otherwise. *)
+Theorem C05_shortcut_root_choice : forall (F : Type) (A : Arith F) (n : nat) (g : gmember F),
+  (forall L, g_root g = Some L -> shortcut_root A n g = L) /\
+  (g_root g = None -> shortcut_root A n g = cholesky A n (g_M g)).
+Proof. by move=> F A n g; split=> [L|]; [exact: shortcut_root_cached | exact: shortcut_root_fresh]. Qed.
+
+(* A VALID transplanted root (lower triangular, non-zero diagonal, L L^T = M: root_valid - an explicit hypothesis, nothing in
+   the code checks it; the harness checks it numerically on every case and names it when the predicate fails) gives the
+   dense values: diag(R^T M^-1 R) and ln det M, in product form for any ln with ln(xy) = ln x + ln y. *)
+Theorem C05_cached_root_inv_quad : forall (F : rcfType) (ln : F -> F) (n t : nat) (M L : mat F) (R : cols F) (j : 'I_t),
+  root_valid ln n M L ->
+  chol_iq_col (ArR ln) false n L (nth [::] R j)
+  = ((cols_mx ln n t R)^T *m invmx (mx_of ln n n M) *m cols_mx ln n t R) j j.
+Proof. exact cached_root_iq. Qed.
+
+Theorem C05_cached_root_logdet : forall (F : rcfType) (ln : F -> F) (n : nat) (M L : mat F),
+  (forall x y, 0 < x -> 0 < y -> ln (x * y) = ln x + ln y) -> root_valid ln n M L ->
+  chol_logdet (ArR ln) n L = ln (\det (mx_of ln n n M)).
+Proof. exact cached_root_logdet. Qed.
+
+(* ... end to end on the model: logdet() of a batch of operators that all arrive with a valid cached triangular root, on the
+   Cholesky route, is the batch of dense log-determinants - independent of settings, probes and of the matrices' own factors *)
+Theorem C05_cached_root_shortcut_logdet : forall (F : rcfType) (ln : F -> F) (eigh : nat -> mat F -> vec F * mat F)
+    (S : settings F) (bs : seq nat) (n : nat) (M0 L0 : mat F) (mls : seq (mat F * mat F)) (reduce : bool) (probes : cols F),
+  (forall x y, 0 < x -> 0 < y -> ln (x * y) = ln x + ln y) ->
+  (~~ s_log_prob S || (n <= s_max_cholesky_size S)%N) ->
+  (forall ML, ML \in (M0, L0) :: mls -> root_valid ln n ML.1 ML.2) ->
+  leaf_iql (ArR ln) eigh S bs [seq Cached n ML.1 ML.2 | ML <- (M0, L0) :: mls] None true reduce probes
+  = ROk (ONone, OVal bs [seq ln (\det (mx_of ln n n ML.1)) | ML <- (M0, L0) :: mls]).
+Proof. exact cached_leaf_logdet. Qed.
 
 (* shape_conventions: for every class, batch shape and flag combination, a successful run of the model on a
    leaf batch returns the documented shapes (or None / empty / zero placeholders for what was not asked). *)
@@ -388,6 +421,11 @@ rewrite /chol_ok cE /=; split.
 - apply/matrixP => i j; rewrite !mxE !big_ord_recl big_ord0 !mxE /ModelBase.mget /=.
   case: i => [[|[|i]] //= hi]; case: j => [[|[|j]] //= hj]; rewrite ?mulr0 ?mul0r ?addr0 ?add0r ?mulr1 ?mul1r -?natrM //.
 Qed.
+
+(* root_valid is satisfiable: the factor above is a valid root of that matrix *)
+Example C05_hyp_satisfiable_root_valid (F : rcfType) (ln : F -> F) :
+  root_valid ln 2 [:: [:: 4%:R; 2%:R]; [:: 2%:R; 5%:R]] (cholesky (ArR ln) 2 [:: [:: 4%:R; 2%:R]; [:: 2%:R; 5%:R]]).
+Proof. exact: C05_hyp_satisfiable_chol_ok. Qed.
 
 (* eigh_ok is satisfiable: the 1 x 1 matrix [[2]] with eigenvalue 2 and eigenvector 1 *)
 Example C05_hyp_satisfiable_eigh_ok (F : rcfType) (ln : F -> F) :
